@@ -76,8 +76,10 @@ Conforms(nd, e) ==
   /\ e[3] = (IF o.resp.ok THEN 1 ELSE 0)
   /\ e[1] >= 0 => Norm(o.s, P) = Norm(Nodes[e[1] + 1].pre, P)
 
-Divergent == EdgesWhere(LAMBDA nd, e : ~Conforms(nd, e))
-Failed    == EdgesWhere(LAMBDA nd, e : e[3] < 0)
+\* (TLC evaluates constant definitions eagerly at start-up: the switch has to be inside them)
+Full      == IOEnv.VEL_CONFORM # "no"
+Divergent == IF Full THEN EdgesWhere(LAMBDA nd, e : ~Conforms(nd, e)) ELSE {}
+Failed    == IF Full THEN EdgesWhere(LAMBDA nd, e : e[3] < 0) ELSE {}
 InitBad   == {i \in Roots : Norm(Nodes[i].pre, PS[Nodes[i].c]) # Norm(InitState(PS[Nodes[i].c]), PS[Nodes[i].c])}
 
 Sel    == {k \in DOMAIN Nodes : Selected(Nodes[k])}
@@ -91,7 +93,6 @@ Describe(p) == LET nd == Nodes[p[1]] e == nd.e[p[2]] P == PS[nd.c] IN
    expected |-> LET o == Step(nd.pre, Cases[nd.c].reqs[e[2]], P) IN [ok |-> o.resp.ok, post |-> o.s]]
 
 \* VEL_CONFORM = "no": a repeated run over the same graph (other monitor) skips the edge comparison
-Full == IOEnv.VEL_CONFORM # "no"
 Report ==
   [ nodes       |-> Cardinality(Sel),
     expanded    |-> Cardinality({i \in Sel : Nodes[i].x}),
